@@ -65,8 +65,9 @@ var strLit = map[string][2]string{
 // "slong": a long string dense in characters that every escaping pass expands (HTML: 1 -> 6 bytes, quoting: 1 -> 2 or 6), so
 // that output buffers fill up and grow more than once in the middle of the string
 func init() {
-	unit := "<&>\u2028\"\\\n\x01é"
-	v := strings.Repeat(unit, 260)
+	// more than three output bytes per input byte in the HTML pass (two growths of a buffer sized 1.5 x input), then a stretch
+	// that expands in the quoting pass
+	v := strings.Repeat("<&>\u2028", 500) + strings.Repeat("\x01\"\\", 100)
 	b, _ := json.Marshal(v)
 	strLit["slong"] = [2]string{string(b), v}
 }
